@@ -266,3 +266,143 @@ def ja(n):
 
 
 GENERATORS = {'es-es': es, 'fr-fr': fr, 'pt-br': pt, 'de-de': de, 'it-it': it, 'nl-nl': nl, 'zh-cn': zh, 'ja-jp': ja}
+
+
+# ---------------------------------------------------------------------------------------------------------------
+# Above 1000: each culture's scale words with the standard agreement / apocope rules, boundary-first:
+# every scale word x multiplier {1, 2, 21, 100, 101, 121} x remainder {0, 1, 21}.
+
+MULTS = [1, 2, 21, 100, 101, 121]
+REMS = [0, 1, 21]
+
+
+def _es_mult(k):
+    """multiplier in front of mil / millones / billones: apocope uno -> un, veintiuno -> veintiún"""
+    t = es(k)
+    if t.endswith('veintiuno'):
+        return t[:-len('veintiuno')] + 'veintiún'
+    if t.endswith('uno'):
+        return t[:-1]
+    return t
+
+
+def es_big():
+    out = []
+    for word_s, word_p, val in (('mil', 'mil', 10 ** 3), ('millón', 'millones', 10 ** 6), ('billón', 'billones', 10 ** 12)):
+        for k in MULTS:
+            for r in REMS:
+                if k == 1:
+                    head = 'mil' if val == 1000 else 'un ' + word_s
+                else:
+                    head = _es_mult(k) + ' ' + word_p
+                out.append((k * val + r, head + ('' if r == 0 else ' ' + es(r))))
+    out.append((10 ** 9, 'mil millones'))
+    out.append((2 * 10 ** 9 + 21, 'dos mil millones veintiuno'))
+    return out
+
+
+def fr_big():
+    out = []
+    for word_s, word_p, val in (('mille', 'mille', 10 ** 3), ('million', 'millions', 10 ** 6), ('milliard', 'milliards', 10 ** 9)):
+        for k in MULTS:
+            for r in REMS:
+                if k == 1:
+                    head = 'mille' if val == 1000 else 'un ' + word_s
+                else:
+                    head = fr(k) + ' ' + word_p
+                out.append((k * val + r, head + ('' if r == 0 else ' ' + fr(r))))
+    return out
+
+
+def pt_big():
+    out = []
+    for word_s, word_p, val in (('mil', 'mil', 10 ** 3), ('milhão', 'milhões', 10 ** 6)):
+        for k in MULTS:
+            for r in REMS:
+                if k == 1:
+                    head = 'mil' if val == 1000 else 'um ' + word_s
+                else:
+                    head = pt(k) + ' ' + word_p
+                out.append((k * val + r, head + ('' if r == 0 else ' e ' + pt(r))))
+    return out
+
+
+def de_big():
+    out = []
+    for k in MULTS:
+        for r in REMS:
+            out.append((k * 1000 + r, de(k * 1000 + r)))
+    for word_s, word_p, val in (('million', 'millionen', 10 ** 6), ('milliarde', 'milliarden', 10 ** 9)):
+        for k in (1, 2, 21, 100, 121):          # 101: "hunderteine Million" has competing spellings, left out
+            for r in REMS:
+                if k == 1:
+                    head = 'eine ' + word_s
+                else:
+                    head = de(k) + ' ' + word_p
+                out.append((k * val + r, head + ('' if r == 0 else ' ' + de(r))))
+    return out
+
+
+def it_big():
+    out = []
+    for k in MULTS:
+        for r in REMS:
+            out.append((k * 1000 + r, it(k * 1000 + r)))
+    for word_s, word_p, val in (('milione', 'milioni', 10 ** 6), ('miliardo', 'miliardi', 10 ** 9)):
+        for k in MULTS:
+            head = 'un ' + word_s if k == 1 else it(k) + ' ' + word_p
+            out.append((k * val, head))             # remainders after milioni have competing spellings, left out
+    return out
+
+
+def nl_big():
+    out = []
+    for k in MULTS:
+        for r in REMS:
+            out.append((k * 1000 + r, nl(k * 1000 + r)))
+    for word, val in (('miljoen', 10 ** 6), ('miljard', 10 ** 9), ('biljoen', 10 ** 12)):
+        for k in MULTS:
+            for r in REMS:
+                out.append((k * val + r, nl(k) + ' ' + word + ('' if r == 0 else ' ' + nl(r))))
+    return out
+
+
+BIG = {'es-es': es_big, 'fr-fr': fr_big, 'pt-br': pt_big, 'de-de': de_big, 'it-it': it_big, 'nl-nl': nl_big}
+
+# ---------------------------------------------------------------------------------------------------------------
+# Ordinals: units, tens, hundreds, each scale word, a few compounds — only forms that are standard.
+
+ORDINALS = {
+    'es-es': [(1, 'primero'), (2, 'segundo'), (3, 'tercero'), (4, 'cuarto'), (5, 'quinto'), (6, 'sexto'), (7, 'séptimo'),
+              (8, 'octavo'), (9, 'noveno'), (10, 'décimo'), (11, 'undécimo'), (12, 'duodécimo'), (20, 'vigésimo'),
+              (21, 'vigésimo primero'), (30, 'trigésimo'), (40, 'cuadragésimo'), (50, 'quincuagésimo'),
+              (60, 'sexagésimo'), (70, 'septuagésimo'), (80, 'octogésimo'), (90, 'nonagésimo'), (100, 'centésimo'),
+              (200, 'ducentésimo'), (300, 'tricentésimo'), (500, 'quingentésimo'), (1000, 'milésimo'),
+              (10 ** 6, 'millonésimo')],
+    'fr-fr': [(1, 'premier'), (2, 'deuxième'), (3, 'troisième'), (4, 'quatrième'), (5, 'cinquième'), (6, 'sixième'),
+              (7, 'septième'), (8, 'huitième'), (9, 'neuvième'), (10, 'dixième'), (11, 'onzième'), (12, 'douzième'),
+              (20, 'vingtième'), (21, 'vingt et unième'), (30, 'trentième'), (40, 'quarantième'), (50, 'cinquantième'),
+              (60, 'soixantième'), (100, 'centième'), (200, 'deux centième'), (1000, 'millième'),
+              (2000, 'deux millième'), (10 ** 6, 'millionième'), (2 * 10 ** 6, 'deux millionième'),
+              (10 ** 9, 'milliardième')],
+    'pt-br': [(1, 'primeiro'), (2, 'segundo'), (3, 'terceiro'), (4, 'quarto'), (5, 'quinto'), (6, 'sexto'), (7, 'sétimo'),
+              (8, 'oitavo'), (9, 'nono'), (10, 'décimo'), (20, 'vigésimo'), (21, 'vigésimo primeiro'), (30, 'trigésimo'),
+              (40, 'quadragésimo'), (50, 'quinquagésimo'), (60, 'sexagésimo'), (70, 'septuagésimo'),
+              (80, 'octogésimo'), (90, 'nonagésimo'), (100, 'centésimo'), (200, 'ducentésimo'), (1000, 'milésimo'),
+              (10 ** 6, 'milionésimo')],
+    'de-de': [(1, 'erste'), (2, 'zweite'), (3, 'dritte'), (4, 'vierte'), (5, 'fünfte'), (6, 'sechste'), (7, 'siebte'),
+              (8, 'achte'), (9, 'neunte'), (10, 'zehnte'), (11, 'elfte'), (12, 'zwölfte'), (20, 'zwanzigste'),
+              (21, 'einundzwanzigste'), (30, 'dreißigste'), (100, 'hundertste'), (200, 'zweihundertste'),
+              (1000, 'tausendste'), (2000, 'zweitausendste'), (10 ** 6, 'millionste'), (2 * 10 ** 6, 'zweimillionste'),
+              (10 ** 9, 'milliardste')],
+    'it-it': [(1, 'primo'), (2, 'secondo'), (3, 'terzo'), (4, 'quarto'), (5, 'quinto'), (6, 'sesto'), (7, 'settimo'),
+              (8, 'ottavo'), (9, 'nono'), (10, 'decimo'), (11, 'undicesimo'), (12, 'dodicesimo'), (20, 'ventesimo'),
+              (21, 'ventunesimo'), (30, 'trentesimo'), (100, 'centesimo'), (200, 'duecentesimo'), (1000, 'millesimo'),
+              (2000, 'duemillesimo'), (10 ** 6, 'milionesimo'), (10 ** 9, 'miliardesimo')],
+    'nl-nl': [(1, 'eerste'), (2, 'tweede'), (3, 'derde'), (4, 'vierde'), (5, 'vijfde'), (6, 'zesde'), (7, 'zevende'),
+              (8, 'achtste'), (9, 'negende'), (10, 'tiende'), (11, 'elfde'), (12, 'twaalfde'), (20, 'twintigste'),
+              (21, 'eenentwintigste'), (30, 'dertigste'), (100, 'honderdste'), (200, 'tweehonderdste'),
+              (1000, 'duizendste'), (2000, 'tweeduizendste'), (10 ** 6, 'miljoenste'), (2 * 10 ** 6, 'twee miljoenste'),
+              (2 * 10 ** 6, 'tweemiljoenste'), (10 ** 9, 'miljardste'), (2 * 10 ** 9, 'twee miljardste'),
+              (3 * 10 ** 11, 'driehonderd miljardste'), (2 * 10 ** 9, 'tweemiljardste')],
+}
